@@ -29,6 +29,7 @@ fn keep_for(prop: &str) -> Keep {
         "C14" => Keep { security: true, ..none },
         "C15" => Keep { servers: true, ..none },
         "C17" => Keep { ops: true, schemas: true, docs: true, ..none },
+        "C04" => Keep { schemas: true, types: true, flags: true, ..none },
         _ => Keep { docs: true, types: true, flags: true, ops: true, schemas: true, servers: true, security: true, param_shape: true },
     }
 }
@@ -330,6 +331,8 @@ pub fn run(prop: &str, tier: &str, seed: u64, out: &str) {
     }
     // ---- model ----
     let mods = model::eval(&reqs);
+    // documents on which model and implementation differ: handed to the compile / run stage of the same property
+    let mut focus_docs: Vec<Value> = vec![];
     for ((q, im), (m, &ci)) in reqs.iter().zip(imps.iter()).zip(mods.iter().zip(idx_of.iter())) {
         let m_panics = m.starts_with("(panic");
         let i_panics = im.starts_with("(panic");
@@ -342,9 +345,11 @@ pub fn run(prop: &str, tier: &str, seed: u64, out: &str) {
         if a != b {
             let (x, y) = first_diff(&a, &b);
             rep.disagree(&case_text(&cases[ci]), &x, &y);
+            if focus_docs.len() < 12 { focus_docs.push(cases[ci].doc.clone()); }
         } else if im != m { rep.bump("disagreement_outside_projection"); }
         let _ = q;
     }
+    let _ = std::fs::write(crate::pipeline::scratch_root().join(format!("focus-docs-{prop}.json")), serde_json::to_string(&focus_docs).unwrap());
     // ---- oracles on the implementation ----
     let mut extra_reqs: Vec<String> = vec![];
     let mut extra_meta: Vec<(usize, String, String)> = vec![]; // (case, position, impl type)
